@@ -404,6 +404,14 @@ where
         Out::Panic(m) => note(&mut fail, "build()", &format!("{h:?}"), &m),
         Out::Err(_) => {},
     }
+    // the one-step constructor on the same type and name
+    if let Some(t) = mk(&h.ty) {
+        match guard("GenericPurl::new", || purl::GenericPurl::new(t, h.name.as_str())) {
+            Out::Ok(Ok(p)) => exercise_value(&p, &format!("GenericPurl::new({:?}, {:?})", h.ty, h.name), &mut fail),
+            Out::Panic(m) => note(&mut fail, "GenericPurl::new", &format!("({:?}, {:?})", h.ty, h.name), &m),
+            _ => {},
+        }
+    }
     fail
 }
 
